@@ -91,6 +91,7 @@ K_TOL = 4.0            # safety factor on the propagated bound
 # relative error charged per operation / conversion, chosen so that K_TOL * REL is the tolerance of
 # the DESIGN plan (1e-9 in float / ndarray runs, 1e-22 in Decimal runs).  A tighter "few ulp" bound
 # is wrong for pint: meter**8 * bohr -> bohr**9 under auto_reduce_dimensions is off by 3e-13.
+PMAX_FLOAT = 8.0       # float runs: no unit is raised beyond this power (pool units are calibrated up to it)
 REL = {"float": 2.5e-10, "ndarray": 2.5e-10, "decimal": 2.5e-23}
 
 
@@ -197,7 +198,7 @@ class Leaf:
 
 
 class Node:
-    __slots__ = ("id", "kind", "op", "form", "kids", "leaf", "num", "zn", "shape", "isarray")
+    __slots__ = ("id", "kind", "op", "form", "kids", "leaf", "num", "zn", "shape", "isarray", "pmax")
 
     def __init__(self, kind, op=None, kids=(), leaf=None, num=None, form="plain"):
         self.kind = kind          # 'leaf' | 'num' | 'un' | 'bin'
@@ -210,6 +211,7 @@ class Node:
         self.id = -1
         self.shape = None
         self.isarray = False
+        self.pmax = 0.0           # upper bound of |exponent| any unit can carry in the result
 
 
 def number_nodes(root):
@@ -266,6 +268,8 @@ def _af(x):
 
 def model_node(node, kids, cx, idx):
     """Outcome of one node for element `idx` given the outcomes of its children."""
+    if not cx.exact and cx.mode != "decimal" and node.pmax > PMAX_FLOAT:
+        return skip("float-range-unit-exponent-too-high")
     if node.kind == "leaf":
         lf = node.leaf
         if len(lf.vals) == 1:
@@ -354,6 +358,8 @@ def _model_bin(op, a, b, cx):
         if not cx.exact and _af(b.v) <= 2 * K_TOL * b.err and b.err > 0:
             return skip("ill-conditioned-divisor")
         if b.v == 0:
+            if nan and cx.mode == "decimal":
+                return skip("decimal-nan-divided-by-zero-is-nan")
             return merr("zerodiv") if not cx.array else skip("array-division-by-zero")
         if nan:
             return ok(MV(NAN, dims, a.bare and b.bare))
@@ -551,6 +557,30 @@ class Pool:
         self._unit_cache = {}
         self._log = {}
         self.maxlog = 0          # set > 0 in inexact runs (decades allowed for a unit factor)
+
+    def calibrate_float(self, rec):
+        """Float registries only: drop units for which pint's own factor of unit**e is not the e-th
+        power of its factor of unit (subnormal / overflowing intermediates in long chains)."""
+        UC = self.ureg.UnitsContainer
+        keep = []
+        for c in self.names:
+            good = True
+            try:
+                f0 = float(self.ureg.get_root_units(UC({c: 1}))[0])
+                for e in (2, 3, 4, 6, int(PMAX_FLOAT), -1, -2, -3, -4, -6, -int(PMAX_FLOAT)):
+                    want = f0 ** e
+                    got = float(self.ureg.get_root_units(UC({c: e}))[0])
+                    if not (1e-280 < abs(want) < 1e280) or abs(got / want - 1) > 1e-11:
+                        good = False
+                        break
+            except Exception:  # noqa: BLE001
+                good = False
+            if good:
+                keep.append(c)
+            else:
+                rec.count("pool_units_dropped_float_power_unreliable")
+                rec.observe("float_power_unreliable_units", c)
+        self.__init__(self.m, self.ureg, keep, rec, bool(self.prefixes))
 
     def spelled(self, rng, c, p_prefix=0.35):
         """canonical name, possibly with a prefix that both the model and pint read the same way."""
@@ -781,6 +811,29 @@ class TreeGen:
                 n.isarray = hasattr(n.num, "shape") and getattr(n.num, "size", 1) > 1
             else:
                 n.isarray = any(k.isarray for k in n.kids)
+            # bound on unit exponents in the real result (float runs: pint's factor of a high power
+            # of a long definition chain passes through subnormal intermediates, hbar**16 ...)
+            if n.kind == "leaf":
+                n.pmax = max([float(abs(e)) for u in n.leaf.assigns for e in u.values()] or [0.0])
+            elif n.kind == "num":
+                n.pmax = 0.0
+            elif n.kind == "un":
+                n.pmax = n.kids[0].pmax
+            elif n.op in ("*", "/"):
+                n.pmax = n.kids[0].pmax + n.kids[1].pmax
+            elif n.op == "**":
+                e = n.kids[1]
+                if e.kind == "num" and not hasattr(e.num, "shape") and not is_nan(e.num):
+                    k = abs(float(e.num))
+                elif e.kind == "leaf":
+                    k = max(abs(float(v)) for v in e.leaf.vals)
+                else:
+                    k = 3.0
+                n.pmax = n.kids[0].pmax * max(k, 1.0)
+            elif n.op == "//":
+                n.pmax = 0.0
+            else:
+                n.pmax = max(k.pmax for k in n.kids)
 
     # ---- subtrees -------------------------------------------------------------------------
     def random_dims(self):
@@ -1908,6 +1961,7 @@ def run_shard(spec, rec):
             rec.count("registry_skipped_too_small")
             return
         if cx.mode in ("float", "ndarray"):
+            pool.calibrate_float(rec)
             pool.maxlog = cx.maxlog
         runner = Runner(ureg, pint, pool, cx, rec, spec)
         if spec.get("matrix"):
